@@ -14,9 +14,16 @@ import SqlfluffVerif.Driver.Discovery
 import SqlfluffVerif.Driver.WritePath
 import SqlfluffVerif.Driver.Config
 import SqlfluffVerif.Driver.Serialise
+import SqlfluffVerif.Driver.Edits
+import SqlfluffVerif.Driver.FixLoop
+import SqlfluffVerif.Driver.ParseOpt
+import SqlfluffVerif.Driver.Guard
+import SqlfluffVerif.Driver.Funnel
+import SqlfluffVerif.Driver.Sql
+import SqlfluffVerif.Driver.Shared
 open SqlfluffVerif SqlfluffVerif.Proto SqlfluffVerif.Driver
 
-def handlers : List (List String → Option String) := [handlePos, handlePatch, handleDedupe, handleNoqa, handleSelect, handleMR, handleTreeSpec, handleLexer, handleLexSpec, handleSlices, handleExit, handleDiscovery, handleWritePath, handleConfig, handleSerialise]
+def handlers : List (List String → Option String) := [handlePos, handlePatch, handleDedupe, handleNoqa, handleSelect, handleMR, handleTreeSpec, handleLexer, handleLexSpec, handleSlices, handleExit, handleDiscovery, handleWritePath, handleConfig, handleSerialise, handleEdits, handleFixLoop, handleParseOpt, handleGuard, handleFunnel, handleSql, handleShared]
 
 def handle (toks : List String) : String :=
   match toks with
